@@ -175,22 +175,34 @@ TrIdleSpare ==
 TrApiRet ==      \* E.a: 0 ok, 1 ErrShutdown, 2 ErrDial, 3 other, 4 the caller's own context ended (CallWithContext), 5 a stream broke with its connection, 6 the read error of the connection passed through to a call in flight, 7 the same error on a call handed the connection after it had ended;  E.b = 1: answered by the server of the requested address
     /\ IsEv("api.ret")
     /\ LET k == E.c IN
-       /\ failsSince' = IF k \in Callers THEN [failsSince EXCEPT ![k] = IF E.a = 1 THEN @ + 1 ELSE IF E.a = 0 THEN 0 ELSE @] ELSE failsSince
+       /\ failsSince' = IF k \in Callers THEN [failsSince EXCEPT ![k] = IF E.a = 1 THEN (IF cconn[k] # NoConn /\ broken[cconn[k]] THEN @ + 1 ELSE @) ELSE IF E.a = 0 THEN 0 ELSE @] ELSE failsSince
        /\ bad' = bad \cup (IF E.b # 1 THEN {<<l, "wrongserver">>} ELSE {})
                      \cup (IF E.a = 3 THEN {<<l, "othererror">>} ELSE {})
                      \cup (IF E.a = 7 THEN {<<l, "rawrefusal">>} ELSE {})
     /\ LET k == E.c IN
        IF k \in Callers
-         THEN /\ busy' = IF cst[k] = "inflight" /\ cconn[k] # NoConn THEN [busy EXCEPT ![cconn[k]] = @ - 1] ELSE busy
-              /\ cconn' = [cconn EXCEPT ![k] = NoConn]
-              /\ cst' = [cst EXCEPT ![k] = "idle"]
-         ELSE KeepBusy /\ UNCHANGED cst
+         THEN IF E.a = 4 /\ cst[k] = "inflight" /\ cconn[k] # NoConn
+                THEN \* the caller's context ended: the request is still with the server and keeps counting as a call on the
+                     \* connection until the harness reports its late answer (env.late)
+                     /\ cst' = [cst EXCEPT ![k] = "abandoned"] /\ KeepBusy /\ UNCHANGED cconn
+                ELSE /\ busy' = IF cst[k] = "inflight" /\ cconn[k] # NoConn THEN [busy EXCEPT ![cconn[k]] = @ - 1] ELSE busy
+                     /\ cconn' = [cconn EXCEPT ![k] = NoConn]
+                     /\ cst' = [cst EXCEPT ![k] = "idle"]
+         ELSE KeepBusy /\ UNCHANGED <<cst, cconn>>
     \* "a connection on which a call has failed with ErrShutdown is never handed to a call started afterwards": for the forms that
     \* learn the outcome before they return (E.k; reading R3) the connection counts as given up from here on, whether or not the
     \* library marked it
     /\ alive' = IF E.c \in Callers /\ cconn[E.c] # NoConn /\ E.a = 1 /\ E.k \in {"call", "ctx", "stream"}
                 THEN [alive EXCEPT ![cconn[E.c]] = FALSE] ELSE alive
     /\ UNCHANGED <<conns, cursor, idle, addrOf, open, used, up, closed, broken>> /\ RestNC /\ Adv
+
+\* the harness released the handler of caller E.c's abandoned call and its late answer has been read and discarded
+TrLate ==
+    /\ IsEv("env.late") /\ E.c \in Callers /\ cst[E.c] = "abandoned"
+    /\ busy' = [busy EXCEPT ![cconn[E.c]] = @ - 1]
+    /\ cconn' = [cconn EXCEPT ![E.c] = NoConn]
+    /\ cst' = [cst EXCEPT ![E.c] = "idle"]
+    /\ UNCHANGED <<conns, cursor, idle, addrOf, alive, open, used, up, closed, broken, failsSince>> /\ RestNC /\ Adv /\ NoFlag
 
 TrKill ==
     /\ IsEv("env.kill")
@@ -224,7 +236,7 @@ TrObsEnd ==      \* E.a = sockets still open after Close and after every caller 
 TrNext ==
     \/ TrReset \/ TrDial \/ TrIdleDeq \/ TrGet \/ TrDead \/ TrConnClose \/ TrTick \/ TrTickEnd \/ TrRetire \/ TrIdleClose
     \/ TrCloseIdleActive \/ TrApiCloseIdle \/ TrCloseBegin \/ TrCloseConn \/ TrClosed
-    \/ TrApiCall \/ TrApiReg \/ TrIdleSpare \/ TrApiRet \/ TrKill \/ TrRestart \/ TrDrop \/ TrObsClosing \/ TrObsDupSignal \/ TrObsDupExec \/ TrObsEnd
+    \/ TrApiCall \/ TrApiReg \/ TrIdleSpare \/ TrApiRet \/ TrLate \/ TrKill \/ TrRestart \/ TrDrop \/ TrObsClosing \/ TrObsDupSignal \/ TrObsDupExec \/ TrObsEnd
 
 TrSpec == TrInit /\ [][TrNext]_tvars
 
